@@ -48,6 +48,14 @@ def product_number(area):
     return int(product[1:])
 
 
+def tool_number(tool):
+    """ every protocluster and sub-region of a scene has its own tool string t<identity> """
+    return int(tool[1:]) if tool else 0
+
+
+AREA_WIDTH = 9    # integers per encoded area
+
+
 def enc_areas(areas):
     """ canonical form of the JSON list: missing neighbouring_* filled in from start/end, group ids
         numbered by first appearance """
@@ -59,7 +67,7 @@ def enc_areas(areas):
             group = groups.setdefault(group, len(groups) + 1)
         out += [KIND_CODE[area["kind"]], int(area["start"]), int(area["end"]),
                 int(area.get("neighbouring_start", area["start"])), int(area.get("neighbouring_end", area["end"])),
-                int(area["height"]), group, product_number(area)]
+                int(area["height"]), group, product_number(area), tool_number(area.get("tool", ""))]
     return out
 
 
@@ -84,6 +92,16 @@ class Scene:
         self.protos = []
         self.subs = []
         self.genes = []
+        self.dense = False
+        self.twins = []          # kinds of coinciding features generated for this scene
+        self.proto_coords = []   # (core, extent, product) in unrolled coordinates, one per protocluster
+        self.sub_extents = []
+        self._next_identity = 0
+
+    def tool(self):
+        """ a fresh tool string: the identity of the object, carried by Area.tool into the output """
+        self._next_identity += 1
+        return f"t{self._next_identity}"
 
 
 def secmet():
@@ -162,13 +180,9 @@ class Gen:
                 cstart, cend = self.extent(start, end - start, 1, max(1, (end - start) // 4))
             else:
                 cstart, cend = self.extent(start, end - start, 1)
-            try:
-                proto = Protocluster(mkloc(cstart, cend, length), mkloc(start, end, length), tool="t",
-                                     product=f"p{rng.randint(1, 6) if rng.random() < 0.3 else i + 10:04d}", cutoff=1,
-                                     neighbourhood_range=1, detection_rule="r")
-            except Exception:  # pylint: disable=broad-except
-                continue
-            scene.protos.append(proto)
+            product = f"p{rng.randint(1, 6) if rng.random() < 0.3 else i + 10:04d}"
+            self.add_proto(scene, (cstart, cend), (start, end), product)
+        self.add_proto_twins(scene, base, width)
         # dense flavour: many short sub-regions, so that a row holds several occupants when an
         # origin-crossing one arrives (Row.can_fit has to look at every occupant, not at one of them)
         dense = circular and shape < 0.75 and rng.random() < 0.25
@@ -180,7 +194,9 @@ class Gen:
             else:
                 start, end = self.extent(base, width, 1)
             label = "" if rng.random() < 0.15 else f"s{i + 1}"
-            scene.subs.append(SubRegion(mkloc(start, end, length), tool="t", label=label))
+            scene.subs.append(SubRegion(mkloc(start, end, length), tool=scene.tool(), label=label))
+            scene.sub_extents.append((start, end))
+        self.add_sub_twins(scene)
         for i in range(rng.choice([0, 1, 2, 3, 5])):
             start, end = self.extent(base, width, 1, max(1, width // 3))
             strand = rng.choice([1, 1, -1])
@@ -216,6 +232,87 @@ class Gen:
             scene.genes.append(DummyCDS(location=location, locus_tag=f"g{i}"))
         return scene
 
+    def add_proto(self, scene, core, extent, product, sideloaded=False):
+        """ a protocluster with its own identity (tool string); unrolled coordinates are remembered for the twins """
+        from antismash.common.secmet.features import Protocluster
+        from antismash.common.secmet.features.protocluster import SideloadedProtocluster
+        length = scene.length
+        tool = scene.tool()
+        try:
+            if sideloaded:
+                proto = SideloadedProtocluster(mkloc(core[0], core[1], length), mkloc(extent[0], extent[1], length),
+                                               tool, product, neighbourhood_range=1)
+            else:
+                proto = Protocluster(mkloc(core[0], core[1], length), mkloc(extent[0], extent[1], length), tool=tool,
+                                     product=product, cutoff=1, neighbourhood_range=1, detection_rule="r")
+        except Exception:  # pylint: disable=broad-except
+            return None
+        scene.protos.append(proto)
+        scene.proto_coords.append((core, extent, product))
+        return proto
+
+    def add_proto_twins(self, scene, base, width):
+        """ protoclusters that coincide with an existing one in some attributes and differ in others: the layout
+            code must tell OBJECTS apart, not (extent, product) pairs or the like """
+        rng = self.rng
+        if not scene.proto_coords or rng.random() >= 0.4:
+            return
+        flavours = ["same_extent_product_other_core", "same_extent_other_product", "same_core_other_extent",
+                    "identical_but_identity", "same_extent_product_other_core", "clipped_to_window",
+                    "same_start_other_end"]
+        for _ in range(rng.choice([1, 1, 1, 2, 3])):
+            core, extent, product = rng.choice(scene.proto_coords)
+            flavour = rng.choice(flavours)
+            other_product = f"p{rng.randint(1, 30):04d}"
+            sideloaded = rng.random() < 0.2
+            if flavour == "same_extent_product_other_core":
+                new_core = self.extent(extent[0], extent[1] - extent[0], 1)
+                done = self.add_proto(scene, new_core, extent, product, sideloaded)
+            elif flavour == "same_extent_other_product":
+                new_core = core if rng.random() < 0.5 else self.extent(extent[0], extent[1] - extent[0], 1)
+                done = self.add_proto(scene, new_core, extent, other_product, sideloaded)
+            elif flavour == "same_core_other_extent":
+                # the extent grows or shrinks around the core, inside the window of the scene
+                start = rng.randint(base, core[0])
+                end = rng.randint(core[1], base + width)
+                done = self.add_proto(scene, core, (start, end), product if rng.random() < 0.5 else other_product,
+                                      sideloaded)
+            elif flavour == "identical_but_identity":
+                done = self.add_proto(scene, core, extent, product, sideloaded)
+            elif flavour == "same_start_other_end":
+                end = rng.randint(core[1], base + width)
+                done = self.add_proto(scene, core, (extent[0], end), product, sideloaded)
+            else:
+                # both neighbourhoods clipped to the ends of the window (a short contig, or a whole ring):
+                # two protoclusters of one product far apart share the extent
+                extent = (base, base + width)
+                if width == scene.length and base % scene.length:
+                    extent = (base, base + width - 1)    # not the whole ring [s,N)+[0,s): finding F34b, kept rare
+                span = extent[1] - extent[0]
+                first = self.extent(extent[0], max(1, span // 3), 1)
+                second = self.extent(extent[1] - max(1, span // 3), max(1, span // 3), 1)
+                done = self.add_proto(scene, first, extent, product, False)
+                done = self.add_proto(scene, second, extent, product, sideloaded) and done
+            if done:
+                scene.twins.append(flavour)
+
+    def add_sub_twins(self, scene):
+        """ sub-regions over the stretch of another sub-region or of a protocluster """
+        from antismash.common.secmet.features import SubRegion
+        rng = self.rng
+        if rng.random() >= 0.25:
+            return
+        pool = list(scene.sub_extents) + [extent for _, extent, _ in scene.proto_coords]
+        if not pool:
+            return
+        for _ in range(rng.choice([1, 1, 2])):
+            start, end = rng.choice(pool)
+            labels = [sub.label for sub in scene.subs if sub.label]
+            label = rng.choice(labels) if labels and rng.random() < 0.5 else f"s{len(scene.subs) + 1}"
+            scene.subs.append(SubRegion(mkloc(start, end, scene.length), tool=scene.tool(), label=label))
+            scene.sub_extents.append((start, end))
+            scene.twins.append("sub_same_extent")
+
     def direct_regions(self, scene):
         """ candidate clusters from arbitrary groups of the protoclusters, one region over everything """
         from antismash.common.secmet.features import Region
@@ -234,6 +331,18 @@ class Gen:
                 cand = self.Cand(kind, group, circular_wrap_point=wrap)
                 cand.number = number
                 cands.append(cand)
+            if rng.random() < 0.25:
+                # a second candidate cluster over the protoclusters of an existing one (same extent, same or
+                # different kind): two candidate OBJECTS that agree in everything the layout looks at
+                twin = rng.choice(cands)
+                group = list(twin.protoclusters)
+                kind = twin.kind if rng.random() < 0.5 or len(group) == 1 else \
+                    rng.choice([CandidateClusterKind.INTERLEAVED, CandidateClusterKind.NEIGHBOURING,
+                                CandidateClusterKind.CHEMICAL_HYBRID])
+                cand = self.Cand(kind, group, circular_wrap_point=wrap)
+                cand.number = len(cands) + 1
+                cands.append(cand)
+                scene.twins.append("candidate_same_protoclusters")
         subs = list(scene.subs)
         # the Region constructor keeps the order of its children, and pack() places them in that order:
         # as generated, shuffled, in plain start order (an origin-crossing area then comes AFTER the areas
@@ -265,8 +374,8 @@ def corpus_scenes(gen):
     from antismash.common.secmet.features import Protocluster, SubRegion, Region
     from antismash.common.secmet.features.candidate_cluster import CandidateClusterKind
 
-    def proto(core, extent, length, product):
-        return Protocluster(mkloc(core[0], core[1], length), mkloc(extent[0], extent[1], length), tool="t",
+    def proto(scene, core, extent, length, product):
+        return Protocluster(mkloc(core[0], core[1], length), mkloc(extent[0], extent[1], length), tool=scene.tool(),
                             product=product, cutoff=1, neighbourhood_range=1, detection_rule="r")
 
     layouts = [
@@ -288,23 +397,54 @@ def corpus_scenes(gen):
     from antismash.common.secmet.test.helpers import DummyCDS
     FL, CL = secmet()
     scene = Scene(100, True)
-    scene.subs = [SubRegion(FL(69, 75, 1), tool="t", label="s1")]
+    scene.subs = [SubRegion(FL(69, 75, 1), tool=scene.tool(), label="s1")]
     scene.genes = [DummyCDS(location=CL([FL(72, 73, 1), FL(69, 71, 1)]), locus_tag="g0")]
     out.append((scene, [Region([], list(scene.subs))]))
     # gene_across_region_gap (F45): region [10,30)+[0,9) on a ring of 30, gene join{[7:9](+), [10:11](+)}
     scene = Scene(30, True)
-    scene.subs = [SubRegion(mkloc(10, 39, 30), tool="t", label="s1")]
+    scene.subs = [SubRegion(mkloc(10, 39, 30), tool=scene.tool(), label="s1")]
     scene.genes = [DummyCDS(location=CL([FL(7, 9, 1), FL(10, 11, 1)]), locus_tag="g0")]
     out.append((scene, [Region([], list(scene.subs))]))
     for length, protos, whole in layouts:
         scene = Scene(length, True)
-        scene.protos = [proto(core, extent, length, f"p{i + 10:04d}") for i, (core, extent) in enumerate(protos)]
+        scene.protos = [proto(scene, core, extent, length, f"p{i + 10:04d}") for i, (core, extent) in enumerate(protos)]
         if whole:
-            scene.subs = [SubRegion(mkloc(0, length, length), tool="t", label="s1")]
+            scene.subs = [SubRegion(mkloc(0, length, length), tool=scene.tool(), label="s1")]
         kind = CandidateClusterKind.SINGLE if len(scene.protos) == 1 else CandidateClusterKind.INTERLEAVED
         cand = gen.Cand(kind, list(scene.protos), circular_wrap_point=length)
         cand.number = 1
         out.append((scene, [Region([cand], list(scene.subs))]))
+
+    # coinciding objects (seeds C19-seed5 / C19-seed6): (length, circular, [(core, extent, product)], sub-region extents)
+    twins = [
+        # a short linear contig: two protoclusters of one product, both neighbourhoods clipped to the contig ends
+        (12000, False, [((1000, 2000), (0, 12000), "p0005"), ((9000, 10000), (0, 12000), "p0005"),
+                        ((4000, 7000), (3000, 8000), "p0009")], []),
+        # an origin-spanning pair over the same stretch, same product, different cores (origin-crossing region)
+        (1000, True, [((950, 1020), (900, 1100), "p0003"), ((1030, 1060), (900, 1100), "p0003")], []),
+        # a whole-record region: two origin-spanning protoclusters of different products with the same extent,
+        # a third one with its own extent, one that stays clear of the origin; sub-regions bridging the rest
+        (1000, True, [((920, 960), (900, 1100), "p0003"), ((980, 1040), (900, 1100), "p0004"),
+                      ((1120, 1170), (850, 1200), "p0005"), ((400, 600), (300, 700), "p0006")],
+         [(150, 350), (650, 1050)]),
+        # the same with two sub-regions over one origin-spanning stretch and identical twins
+        (1000, True, [((920, 960), (900, 1100), "p0003"), ((920, 960), (900, 1100), "p0003")],
+         [(0, 1000), (650, 1050), (650, 1050)]),
+    ]
+    for length, circular, protos, subs in twins:
+        scene = Scene(length, circular)
+        scene.protos = [proto(scene, core, extent, length, product) for core, extent, product in protos]
+        scene.subs = [SubRegion(mkloc(start, end, length), tool=scene.tool(), label=f"s{i + 1}")
+                      for i, (start, end) in enumerate(subs)]
+        wrap = length if circular else None
+        cands = []
+        for single in scene.protos:
+            cands.append(gen.Cand(CandidateClusterKind.SINGLE, [single], circular_wrap_point=wrap))
+        cands.append(gen.Cand(CandidateClusterKind.NEIGHBOURING, list(scene.protos), circular_wrap_point=wrap))
+        for number, cand in enumerate(cands):
+            cand.number = number + 1
+        scene.twins.append("corpus")
+        out.append((scene, [Region(cands, list(scene.subs))]))
     return out
 
 
@@ -334,6 +474,32 @@ def crossing_meets_occupied_row(region):
                 except Exception:  # pylint: disable=broad-except
                     return False
     return False
+
+
+def count_coincidences(chk, region, shape):
+    """ distribution of the coinciding objects that reach build_area_rows through the accessors of the Region """
+    protos = protocluster_set_order(region)
+    members = [proto for cand in region.candidate_clusters for proto in cand.protoclusters]
+    if len(members) > len(protos):
+        chk.count("region_with_protocluster_shared_by_candidates")
+    seen = {"extent_product": set(), "extent": set(), "core": set(), "all": set()}
+    found = set()
+    for proto in protos:
+        keys = {"extent_product": (str(proto.location), proto.product), "extent": str(proto.location),
+                "core": str(proto.core_location),
+                "all": (str(proto.location), str(proto.core_location), proto.product)}
+        for name, key in keys.items():
+            if key in seen[name]:
+                found.add(name)
+            seen[name].add(key)
+    for name in found:
+        chk.count(f"region_with_distinct_protoclusters_same_{name}")
+        if name == "extent" and any(p.crosses_origin() for p in protos):
+            chk.count(f"region_{shape}_with_distinct_protoclusters_same_extent_some_origin_crossing")
+    for name, features in (("subregions", region.subregions), ("candidates", region.candidate_clusters)):
+        extents = [str(f.location) for f in features]
+        if len(set(extents)) < len(extents):
+            chk.count(f"region_with_distinct_{name}_same_extent")
 
 
 def protocluster_set_order(region):
@@ -371,7 +537,11 @@ def well_formed(location):
 
 
 def enc_region_payload(region, length, circular, chk=None):
-    """ N circular region_loc subs cands protos; None if the case lies outside the modelled domain """
+    """ N circular region_loc subs cands members order; None if the case lies outside the modelled domain.
+        Everything is read from the Region through its public accessors: subregions, candidate_clusters and
+        candidate.protoclusters (members: the protoclusters of every candidate cluster, a shared one several times;
+        the model de-duplicates by identity = number of the tool string); order: the identities in the iteration
+        order of the set that get_unique_protoclusters builds """
     protos = protocluster_set_order(region)
     for feature in list(protos) + list(region.subregions) + list(region.candidate_clusters) + [region]:
         if not well_formed(feature.location):
@@ -380,8 +550,11 @@ def enc_region_payload(region, length, circular, chk=None):
         return None, "sort_not_weak_order"
     out = [length, int(circular)] + enc_loc(region.location)
     out.append(len(region.subregions))
-    for i, sub in enumerate(region.subregions):
-        out += enc_feat(i, 2, sub.location, None, False, int(sub.label[1:]) if sub.label else 0)
+    identities = [tool_number(feature.tool) for feature in list(region.subregions) + protos]
+    if len(set(identities)) != len(identities) or 0 in identities:
+        raise AssertionError("harness: tool strings do not identify the objects")
+    for sub in region.subregions:
+        out += enc_feat(tool_number(sub.tool), 2, sub.location, None, False, int(sub.label[1:]) if sub.label else 0)
     out.append(len(region.candidate_clusters))
     for i, cand in enumerate(region.candidate_clusters):
         try:
@@ -389,19 +562,22 @@ def enc_region_payload(region, length, circular, chk=None):
         except Exception:  # pylint: disable=broad-except
             return None, "candidate_core_raises"
         out += enc_feat(i, 1, cand.location, core, str(cand.kind) == "single", cand.get_candidate_cluster_number())
+    members = [proto for cand in region.candidate_clusters for proto in cand.protoclusters]
+    out.append(len(members))
+    for proto in members:
+        out += enc_feat(tool_number(proto.tool), 0, proto.location, proto.core_location, False, int(proto.product[1:]))
     out.append(len(protos))
-    for i, proto in enumerate(protos):
-        out += enc_feat(i, 0, proto.location, proto.core_location, False, int(proto.product[1:]))
+    out += [tool_number(proto.tool) for proto in protos]
     return out, None
 
 
 def describe_region(region, length, circular, genes=None):
     doc = {"record_length": length, "circular": circular, "region": str(region.location),
-           "subregions": [str(s.location) for s in region.subregions],
-           "candidates": [{"location": str(c.location), "kind": str(c.kind),
-                           "protoclusters": [p.product for p in c.protoclusters]} for c in region.candidate_clusters],
-           "protoclusters": [{"product": p.product, "location": str(p.location), "core": str(p.core_location)}
-                             for p in protocluster_set_order(region)]}
+           "subregions": [{"identity": s.tool, "location": str(s.location)} for s in region.subregions],
+           "candidates": [{"number": c.get_candidate_cluster_number(), "location": str(c.location), "kind": str(c.kind),
+                           "protoclusters": [p.tool for p in c.protoclusters]} for c in region.candidate_clusters],
+           "protoclusters": [{"identity": p.tool, "product": p.product, "location": str(p.location),
+                              "core": str(p.core_location)} for p in protocluster_set_order(region)]}
     if genes is not None:
         doc["genes"] = [str(g.location) for g in genes]
     return doc
@@ -504,7 +680,12 @@ RULE = ("fn1 pack: 0-8 sub-regions on rings of 30..1000 (walks with gaps end+0/+
         "fn2 build_area_rows and fn3 js.convert_regions (description rendering stubbed): scenes of 1-5 protoclusters (core "
         "anywhere inside the extent, also equal to it), 0-3 sub-regions (3-7 mostly short ones in a quarter of the circular "
         "scenes) and 0-5 genes (either strand, two exons, origin-spanning, origin-spanning with a third exon before or after, "
-        "possibly on the far side of the gap of the region) "
+        "possibly on the far side of the gap of the region); in 40% of the scenes 1-3 further protoclusters that COINCIDE with an "
+        "existing one in some attributes and differ in others (same extent and product / other core; same extent / other "
+        "product; same core / other extent; same start / other end; identical but for identity; two of one product clipped to "
+        "both ends of the window; a fifth of them sideloaded), in 25% sub-regions over the stretch of another sub-region or of a "
+        "protocluster, in 25% of the direct regions a second candidate cluster over the protoclusters of an existing one; every "
+        "protocluster and sub-region has its own tool string, which Area.tool carries into the output (identity) "
         "in a window of a linear or circular record (window anywhere, over the origin, or the whole record), regions built "
         "(a) directly from arbitrary groups of the protoclusters as 1-3 candidate clusters of any kind plus the sub-regions, the "
         "children handed to Region in the order generated, shuffled, in plain start order (35%: the order in which Row.can_fit "
@@ -513,7 +694,10 @@ RULE = ("fn1 pack: 0-8 sub-regions on rings of 30..1000 (walks with gaps end+0/+
         "circular records; excluded (counted): features whose wrapped tail overlaps the head, protocluster sets on which "
         "CDSCollection.__lt__ is not a strict weak order (Python's sort result then depends on Timsort internals), scenes the "
         "secmet constructors refuse.  The decidable specification (extents in range, rows disjoint, every feature drawn once or as "
-        "two linked halves, start/end chain) is evaluated in Gallina on every implementation output.  non-trivial = at least two "
+        "two linked halves - by count per kind AND by identity: each object of region.subregions, of the drawn "
+        "region.candidate_clusters and of the candidate.protoclusters de-duplicated by identity has exactly one ungrouped area or "
+        "exactly two linked halves, no area belongs to anything else -, every non-zero group value on exactly two areas, "
+        "start/end chain) is evaluated in Gallina on every implementation output.  non-trivial = at least two "
         "areas in the output (fn2/fn3) or at least two areas packed (fn1); distinct by flat encoding")
 
 
@@ -523,7 +707,7 @@ def known_classes():
 
 def judge_spec(chk, flat, impl_out, verdict, known, describe):
     """ verdict of spec_areas (+ spec_orfs, class_gene_gap, class_gene_long_way):
-        [all e d c ch chc (orfs gene_gap gene_long_way)] """
+        [all e d c ch chc identity pairwise (orfs gene_gap gene_long_way)] """
     if verdict == [-999]:
         chk.violation("broken-correspondence", "specification could not decode the implementation output",
                       {"theorem_or_correspondence": "spec decoding", "flat": flat, "implementation": impl_out})
@@ -535,8 +719,8 @@ def judge_spec(chk, flat, impl_out, verdict, known, describe):
                           {"theorem_or_correspondence": "C19_pack_no_overlap / C19_pack_complete", "function": "pack",
                            "flat": flat, "implementation": impl_out, "spec_verdict": verdict, "input": describe})
         return
-    ok_all, ext, dis, comp, chain, chain_cand = verdict[:6]
-    orfs_ok = verdict[6] if len(verdict) > 6 else 1
+    ok_all, ext, dis, comp, chain, chain_cand, identity, pairwise = verdict[:8]
+    orfs_ok = verdict[8] if len(verdict) > 8 else 1
     failures = []
     if not ext:
         failures.append("an extent lies outside the announced range")
@@ -544,11 +728,16 @@ def judge_spec(chk, flat, impl_out, verdict, known, describe):
         failures.append("two areas of one row overlap")
     if not comp:
         failures.append("a feature is not drawn exactly once (or as two linked halves)")
+    if not identity:
+        failures.append("by identity: some protocluster, candidate cluster or sub-region of the region is drawn zero times "
+                        "or more than once (or its two halves are not a linked pair), or an area belongs to none of them")
+    if not pairwise:
+        failures.append("halves are not linked pairwise: a group value occurs on other than exactly two areas")
     if not orfs_ok:
-        if len(verdict) > 7 and verdict[7] and CLASS_GENE_GAP in known:
+        if len(verdict) > 9 and verdict[9] and CLASS_GENE_GAP in known:
             chk.count("known_" + CLASS_GENE_GAP)
             chk.known(known[CLASS_GENE_GAP]["what_fails"])
-        elif len(verdict) > 8 and verdict[8] and CLASS_GENE_LONG in known:
+        elif len(verdict) > 10 and verdict[10] and CLASS_GENE_LONG in known:
             chk.count("known_" + CLASS_GENE_LONG)
             chk.known(known[CLASS_GENE_LONG]["what_fails"])
         else:
@@ -560,7 +749,8 @@ def judge_spec(chk, flat, impl_out, verdict, known, describe):
     if failures:
         chk.violation("counterexample", f"{FN_NAME[fn]}: " + "; ".join(failures),
                       {"theorem_or_correspondence": "C19_build_chain_in_range / C19_in_range_core / C19_pack_no_overlap / "
-                                                    "C19_pack_complete",
+                                                    "C19_pack_complete / C19_region_drawn_exactly_once / "
+                                                    "C19_groups_linked_pairwise",
                        "function": FN_NAME[fn], "flat": flat, "implementation": impl_out, "spec_verdict": verdict,
                        "input": describe})
 
@@ -644,8 +834,9 @@ def run(chk):
             desc = describe_region(region, scene.length, scene.circular)
             out = impl_build(region, scene.length, scene.circular)
             add([PROP, 2] + payload, out, out[0] == 0 and out[1] >= 2, desc)
-            if any(a != 0 for a in out[1 + 7::8]) if out[0] == 0 else False:
+            if any(a != 0 for a in out[2 + 6::AREA_WIDTH]) if out[0] == 0 else False:
                 chk.count("areas_split_in_halves")
+            count_coincidences(chk, region, shape)
             if converted is not None:
                 genes = list(region.cds_children)
                 gflat = [len(genes)]
@@ -658,8 +849,10 @@ def run(chk):
                 desc3 = describe_region(region, scene.length, scene.circular, genes)
                 add([PROP, 3] + payload + gflat, converted[index], converted[index][0] == 0 and len(genes) >= 1, desc3)
 
+    decoded = {id(flat): desc for flat, desc in zip(cases, descs)}
     model_outs = common.correspondence(chk, cases, impl_outs, spec_fn_offset=10,
-                                       describe=lambda flat: {"function": FN_NAME.get(flat[1]), "payload": flat[2:]})
+                                       describe=lambda flat: {"function": FN_NAME.get(flat[1]),
+                                                              "decoded": decoded.get(id(flat)), "payload": flat[2:]})
     # the property itself, evaluated on every implementation output
     spec_cases = [[c[0], c[1] + 10] + c[2:] + o for c, o in zip(cases, impl_outs)]
     verdicts = common.run_driver(spec_cases)
@@ -675,7 +868,7 @@ def run(chk):
                               {"theorem_or_correspondence": "C19_pack_complete", "function": FN_NAME[flat[1]], "flat": flat,
                                "implementation": out, "input": desc})
             continue
-        if verdict and verdict[0] == 1 and (len(verdict) < 7 or verdict[6] == 1):
+        if verdict and verdict[0] == 1 and (len(verdict) < 9 or verdict[8] == 1):
             continue
         chk.count("spec_not_ok_" + FN_NAME[flat[1]])
         judge_spec(chk, flat, out, verdict, known, desc)
